@@ -27,8 +27,6 @@ rely('Sink', protect=H_PROTECT + ['self._collect_parts', 'self.collected_parts',
                                   'self._received_parts_count', 'self._value_of_received_parts'], after=H_AFTER, note=H_NOTE)
 rely('Source', protect=H_PROTECT + ['self._part_generator', 'self._max_produced_parts', 'self._cost_of_produced_parts',
                                     'self._produced_parts'], after=H_AFTER, note=H_NOTE)
-rely('Buffer', protect=H_PROTECT + ['self._minimum_delay', 'self._capacity', 'self._buffer', 'self._buffer[]', 'self._level',
-                                    'self._g_stored'], after=H_AFTER, note=H_NOTE)
 rely('PartBatcher', protect=H_PROTECT + ['self._output_batch_size', 'self._in_progress_batch'], after=H_AFTER, note=H_NOTE)
 
 # --------------------------------------------------------------------------- small helpers (modular)
